@@ -79,13 +79,17 @@ inductive Label
   deriving DecidableEq, Repr, Inhabited
 
 /-- `getOnDispatch = true` is the code; `false` is the variant in which the dispatch functions do
-    not replace `p.intermediate` (used to show that the theorem is about aliasing). -/
+    not replace `p.intermediate` (used to show that the theorem is about aliasing).
+    `putTwice = false` is the assumption on the consumer (`Finish` at most once per sequence);
+    `true` is the variant in which a sequence is handed back twice. -/
 structure Cfg where
   getOnDispatch : Bool := true
+  putTwice : Bool := false
   deriving DecidableEq, Repr, Inhabited
 
 def Cfg.code : Cfg := {}
 def Cfg.noGet : Cfg := { getOnDispatch := false }
+def Cfg.finishTwice : Cfg := { putTwice := true }
 
 def step (c : Cfg) (s : St) : Label → Option St
   | .collect r newcap =>
@@ -123,7 +127,9 @@ def step (c : Cfg) (s : St) : Label → Option St
   | .finish k =>
     match s.delivered[k]? with
     | none => none
-    | some d => some { s with pool := d.s :: s.pool, delivered := s.delivered.eraseIdx k }
+    | some d =>
+      some { s with pool := if c.putTwice then d.s :: d.s :: s.pool else d.s :: s.pool,
+                    delivered := s.delivered.eraseIdx k }
 
 def run (c : Cfg) : St → List Label → Option St
   | s, [] => some s
